@@ -114,6 +114,7 @@ def c12(fns, tier, env):
     out.append(kernel_observe(fns, lb))
     out.append(lemma_clock_composition())
     out.append(kernel_resolve_timestamp(fns))
+    out.append(kernel_get_timestamp(fns))
     out.append(kernel_observe_published(fns))
     out += sites_c12(fns)
     if tier == "thorough":
@@ -252,7 +253,7 @@ def kernel_observe_published(fns):
 # ============================================================================ C13 kernels
 def c13(fns, tier, env):
     lb = 3 if tier == "quick" else 5
-    out = [kernel_reserve_memory(fns, lb), kernel_reservation_drop(fns), kernel_release_memory(fns), kernel_record_size(fns)]
+    out = [kernel_reserve_memory(fns, lb), kernel_reservation_drop(fns), kernel_release_memory(fns), kernel_record_size(fns), kernel_note_expired(fns)]
     out += sites_c13(fns, tier)
     out.append(scan_iteration(fns))
     return finalize(out, env)
@@ -547,27 +548,72 @@ def sites_c13(fns, tier="quick"):
     out = [site_update_record(fns, "::update_record_with_ttl", False),
            site_update_record(fns, "::update_record_with_ttl_bytes", True),
            site_delete(fns)]
-    if tier == "thorough":   # ~4-7 min each: several hundred paths through the retry loop
-        out += [site_insert_vacant(fns, "::insert_with_timestamp_and_ttl_internal"),
-                site_insert_vacant(fns, "::insert_bytes_with_expiry")]
+    out += [site_insert_vacant(fns, "::insert_with_timestamp_and_ttl_internal"),
+            site_insert_vacant(fns, "::insert_bytes_with_expiry"),
+            site_insert_vacant(fns, "::insert_if_absent", "src/core/store/atomic.rs", explicit_ts=False)]
     return out
 
 
-def site_insert_vacant(fns, suffix, hint="src/core/store/operations.rs"):
+def normal_successors(term):
+    if term.startswith("goto -> "):
+        return [term[8:].rstrip(";")]
+    m = re.search(r"-> \[(.*)\];$", term)
+    if not m:
+        return []
+    out = []
+    for part in m.group(1).split(","):
+        part = part.strip()
+        k, _, tgt = part.partition(": ")
+        if k.startswith("unwind"):
+            continue
+        mm = re.match(r"(bb\d+)", tgt.strip())
+        if mm:
+            out.append(mm.group(1))
+    return out
+
+
+def main_loop_header(f):
+    """target of the most DFS back-edges in the normal (non-unwind) control-flow graph: the function's outer loop"""
+    color, back = {}, {}
+    stack = [("bb0", iter(normal_successors(f.blocks["bb0"][-1])))]
+    color["bb0"] = 1
+    while stack:
+        node, itr = stack[-1]
+        nxt = next(itr, None)
+        if nxt is None:
+            color[node] = 2
+            stack.pop()
+            continue
+        if nxt not in f.blocks:
+            continue
+        c = color.get(nxt, 0)
+        if c == 0:
+            color[nxt] = 1
+            stack.append((nxt, iter(normal_successors(f.blocks[nxt][-1]))))
+        elif c == 1:
+            back[nxt] = back.get(nxt, 0) + 1
+    if not back:
+        return None
+    return max(back.items(), key=lambda kv: (kv[1], -int(kv[0][2:])))[0]
+
+
+def site_insert_vacant(fns, suffix, hint="src/core/store/operations.rs", one_iteration=True, explicit_ts=True):
     f = mir.find(fns, suffix, hint)
     ob = Ob("site" + suffix.replace("::", "_"), "%s (new key): the whole record size is reserved before the entry is created, the entry is created only in the "
             "Vacant arm, then the ordered index is filled, the timestamp observed, the reservation committed and record_count incremented by one; "
             "a path that creates nothing commits nothing and counts nothing; an existing key with an equal-or-newer timestamp is refused before any effect" % suffix,
-            "all paths, retry loop unrolled twice", f)
+            "one arbitrary iteration of the retry loop (all locals havocked at its header)", f)
     ts_idx = record_field_index(fns, "timestamp")
-    it = Interp(f, loop_bound=2, pure=PURE + ("::resolve_timestamp",), max_paths=8000)
+    it = Interp(f, loop_bound=2 if not one_iteration else 1, pure=PURE + ("::resolve_timestamp",), max_paths=8000)
     reached = 0
-    for p in it.run():
+    hdr = main_loop_header(f) if one_iteration else None
+    runs = it.run(start=hdr, stop=(hdr,)) if hdr else it.run()
+    for p in runs:
         ob.paths += 1
         if p.status == "truncated":
             ob.truncated += 1
             continue
-        if p.status != "return":
+        if p.status not in ("return", "backedge"):
             continue
         ins = events(p, "VacantEntry::insert_entry")
         commits = events(p, "MemoryReservation::commit")
@@ -594,9 +640,10 @@ def site_insert_vacant(fns, suffix, hint="src/core/store/operations.rs"):
         if tree:
             ob.need(it, p.pc, it.as_u(tree[0].args[2]) == it.as_u(e_ins.args[1]), "ordered index holds the published record")
         obs = [e for e in events(p, "::observe_published_timestamp") if idx_of(p, e) > idx_of(p, e_ins)]
-        ob.must_hold(len(obs) == 1, "published timestamp observed")
+        if explicit_ts:
+            ob.must_hold(len(obs) == 1, "published timestamp observed")
     ob.must_hold(reached >= 1, "the creation site was reached")
-    return ob.result(it)
+    return ob.result(it, witness=[("publishes nothing", "c01_failed_overwrite_is_harmless"), ("", None)])
 
 
 def site_delete(fns):
@@ -815,7 +862,7 @@ def site_prepare_deferred(fns):
 
 # ============================================================================ C11
 def c11(fns, tier, env):
-    out = [kernel_ttl_expiry(fns), site_retire_expired(fns), site_update_ttl(fns), site_sweeper(fns), scan_iteration(fns)]
+    out = [kernel_ttl_expiry(fns), site_retire_expired(fns), site_update_ttl(fns), site_sweeper(fns), site_recovery_expired_winners(fns), scan_iteration(fns)]
     return finalize(out, env)
 
 
@@ -1610,16 +1657,16 @@ def c16(fns, tier, env):
 
 
 def c02(fns, tier, env):
-    return finalize([site_flush_pending_deletions(fns), site_process_deletions(fns), site_write_batch_protocol(fns)], env)
+    return finalize([site_flush_pending_deletions(fns), site_force_flush(fns), site_flush_all(fns), site_process_deletions(fns), site_write_batch_protocol(fns)], env)
 
 
 def c09(fns, tier, env):
-    return finalize([site_flush_worker_requeue(fns), site_process_deletions(fns), site_write_batch_protocol(fns), site_retire_extents(fns),
+    return finalize([kernel_poison(fns), site_flush_worker_requeue(fns), site_process_deletions(fns), site_write_batch_protocol(fns), site_retire_extents(fns),
                      site_journal_write(fns, "write_allocation_journal"), site_journal_write(fns, "clear_allocation_journal")], env)
 
 
 def c10(fns, tier, env):
-    return finalize([site_write_store_metadata(fns), scan_iteration(fns)], env)
+    return finalize([site_write_store_metadata(fns), site_flush_all(fns), scan_iteration(fns)], env)
 
 
 def c01(fns, tier, env):
@@ -1628,8 +1675,8 @@ def c01(fns, tier, env):
            site_update_record(fns, "::replace_record_if_current", False, file_hint="src/core/store/atomic.rs", ts_tuple_local="_5", identity_local="_3",
                               witness=[("(f)", "c07_lost_increment")] + UPDATE_WITNESSES),
            site_delete(fns), kernel_resolve_timestamp(fns)]
-    if tier == "thorough":
-        out += [site_insert_vacant(fns, "::insert_with_timestamp_and_ttl_internal"), site_insert_vacant(fns, "::insert_bytes_with_expiry")]
+    out += [site_insert_vacant(fns, "::insert_with_timestamp_and_ttl_internal"), site_insert_vacant(fns, "::insert_bytes_with_expiry"),
+            site_insert_vacant(fns, "::insert_if_absent", "src/core/store/atomic.rs", explicit_ts=False)]
     return finalize(out, env)
 
 
@@ -1818,6 +1865,213 @@ def scan_iteration(fns):
     return ob.result(it, witness=[("usize>::fetch_sub", "c13_recovery_accounting"), ("u64>::fetch_sub", "c10_recovery_disk_usage"),
                                   ("discarded only", "c11_recovery_expired_winner"), ("indexed only", "c11_recovery_expired_winner"),
                                   ("whole extent", "c03_scan_skips_whole_extents"), ("", "c03_scan_skips_whole_extents")])
+
+
+# ============================================================================ small kernels: flush_all, get_timestamp, note_expired_record, poison
+def site_flush_all(fns):
+    f = mir.find(fns, "::flush_all", "src/core/store/persistence.rs")
+    ob = Ob("site_flush_all_metadata_counters", "flush_all: the write buffer is force-flushed first and its error propagates before anything is written; the metadata "
+            "that is written carries total_records = record_count and total_size = disk_usage (the live counters), and write_store_metadata's error propagates",
+            "all paths", f)
+    it = Interp(f, loop_bound=1, pure=PURE)
+    reached = 0
+    for p in it.run():
+        ob.paths += 1
+        if p.status != "return":
+            continue
+        ff = events(p, "WriteBuffer::force_flush")
+        wm = events(p, "DiskIO::write_store_metadata")
+        for w in wm:
+            reached += 1
+            if ff:
+                ob.must_hold(idx_of(p, ff[0]) < idx_of(p, w), "metadata is written after the write buffer was flushed")
+                ob.need(it, w.pc, okd(it, ff[0]), "metadata is written only when force_flush returned Ok")
+            writes = [e for e in p.events if e.kind == "write" and idx_of(p, e) < idx_of(p, w)]
+            l32 = [e for e in p.events if e.kind == "call" and "Atomic::<u32>::load" in getattr(e, "raw", "")]
+            l64 = [e for e in p.events if e.kind == "call" and "Atomic::<u64>::load" in getattr(e, "raw", "")]
+            w2 = [e for e in writes if e.callee.endswith("2")]
+            w3 = [e for e in writes if e.callee.endswith("3")]
+            ob.must_hold(len(w2) == 1 and len(w3) == 1 and len(l32) == 1 and len(l64) == 1, "total_records and total_size are each set once from one counter load")
+            if w2 and l32:
+                ob.need(it, p.pc, w2[0].args[1] == z3.ZeroExt(32, l32[0].ret), "metadata.total_records = record_count")
+            if w3 and l64:
+                ob.need(it, p.pc, w3[0].args[1] == l64[0].ret, "metadata.total_size = disk_usage")
+            ret_ok, _ = it.entails(p.pc, it.ctx.disc(it.as_u(p.ret)) == 0)
+            if ret_ok:
+                ob.need(it, p.pc, okd(it, w), "Ok is returned only when the metadata write returned Ok")
+    ob.must_hold(reached >= 1, "the metadata write was reached")
+    return ob.result(it)
+
+
+def kernel_get_timestamp(fns):
+    f = mir.find(fns, "::get_timestamp", "src/core/store/operations.rs")
+    ob = Ob("c12_get_timestamp", "get_timestamp(key) = version_clock.next(key, wall clock): every automatic timestamp goes through the per-shard clock", "all paths", f)
+    it = Interp(f, loop_bound=1)
+    for p in it.run():
+        ob.paths += 1
+        if p.status != "return":
+            continue
+        nx = events(p, "VersionClock::next")
+        wall = events(p, "::get_timestamp_pub")
+        ob.must_hold(len(nx) == 1 and len(wall) == 1, "one wall-clock read, one clock step")
+        if nx and wall:
+            ob.need(it, p.pc, z3.And(p.ret == nx[0].ret, nx[0].args[2] == wall[0].ret), "returns next(key, wall)")
+            ob.need(it, p.pc, it.as_u(nx[0].args[1]) == it.as_u(it.read_local({"env": p.env}, "_2")), "for the caller's key")
+    return ob.result(it)
+
+
+def kernel_note_expired(fns):
+    f = mir.find(fns, "::note_expired_record", "src/core/store/internal.rs")
+    ob = Ob("c13_note_expired_record", "note_expired_record: record_count - 1 and memory_usage - record_size, each exactly once", "all paths", f)
+    it = Interp(f, loop_bound=1)
+    size = z3.BitVec("record_size", 64)
+
+    def init(it_, st):
+        st["env"]["_2"] = size
+    for p in it.run(init):
+        ob.paths += 1
+        if p.status != "return":
+            continue
+        c = [e for e in p.events if e.kind == "call" and "Atomic::<u32>::fetch_sub" in getattr(e, "raw", "")]
+        m = [e for e in p.events if e.kind == "call" and "Atomic::<usize>::fetch_sub" in getattr(e, "raw", "")]
+        ob.must_hold(len(c) == 1 and len(m) == 1, "one decrement of each counter")
+        if c and m:
+            ob.need(it, p.pc, z3.And(c[0].args[1] == z3.BitVecVal(1, 32), m[0].args[1] == size), "exact amounts")
+    return ob.result(it)
+
+
+def kernel_poison(fns):
+    f = mir.find(fns, "::ensure_writable", IO_HINT)
+    ob = Ob("c09_poison_and_ensure_writable", "ensure_writable refuses (IndeterminateWrite) exactly when the device was poisoned; poison_writes sets that flag; "
+            "write_sectors_sync, flush and batch_write_inner consult ensure_writable before touching the device", "all paths", f)
+    it = Interp(f, loop_bound=1)
+    for p in it.run():
+        ob.paths += 1
+        if p.status != "return":
+            continue
+        ld = [e for e in events(p, "Atomic::load") if z3.is_bool(e.ret)]
+        ob.must_hold(len(ld) == 1, "the poison flag is read")
+        if ld:
+            is_err = it.ctx.disc(it.as_u(p.ret)) != 0
+            ob.need(it, p.pc, is_err == ld[0].ret, "Err exactly when the flag is set")
+    g = mir.find(fns, "::poison_writes", IO_HINT)
+    it2 = Interp(g, loop_bound=1)
+    for p in it2.run():
+        if p.status != "return":
+            continue
+        st_ = [e for e in events(p, "Atomic::store") if z3.is_bool(e.args[1])]
+        ob.must_hold(len(st_) == 1, "poison_writes stores the flag")
+        if st_:
+            ob.need(it2, p.pc, st_[0].args[1], "the flag is set to true")
+    for name in ("::write_sectors_sync", "::flush"):
+        h = mir.find(fns, name, IO_HINT)
+        it3 = Interp(h, loop_bound=1, pure=PURE, max_paths=3000)
+        for p in it3.run():
+            if p.status != "return":
+                continue
+            ew = events(p, "DiskIO::ensure_writable")
+            dev = [e for e in p.events if e.kind == "call" and (e.callee.endswith("pwrite") or e.callee.endswith("fsync"))]
+            for d in dev:
+                ob.must_hold(bool(ew) and idx_of(p, ew[0]) < idx_of(p, d), "%s checks ensure_writable before the system call" % name)
+                if ew:
+                    ob.need(it3, d.pc, okd(it3, ew[0]), "%s reaches the system call only when ensure_writable returned Ok" % name)
+        ob.queries += it3.queries
+    return ob.result(it)
+
+
+def site_force_flush(fns):
+    f = mir.find(fns, "::force_flush", "src/storage/write_buffer.rs")
+    ob = Ob("site_force_flush_exit_condition", "WriteBuffer::force_flush returns Ok only from the point where, in the same round, every worker answered without error, "
+            "flush_pending_deletions returned Ok and no worker reported leftover work (pending_workers is empty); a worker error or a channel error is returned",
+            "rounds loop: one arbitrary iteration", f)
+    hdr = main_loop_header(f)
+    it = Interp(f, loop_bound=1, pure=PURE, max_paths=8000)
+    oks = 0
+    runs = it.run(start=hdr, stop=(hdr,)) if hdr else it.run()
+    for p in runs:
+        ob.paths += 1
+        if p.status != "return" or p.ret is None:
+            continue
+        ret_ok, _ = it.entails(p.pc, it.ctx.disc(it.as_u(p.ret)) == 0)
+        if not ret_ok:
+            continue
+        oks += 1
+        fpd = events(p, "flush_pending_deletions")
+        ob.must_hold(len(fpd) == 1, "Ok only after flush_pending_deletions ran in this round")
+        if fpd:
+            ob.need(it, p.pc, okd(it, fpd[0]), "Ok only when flush_pending_deletions returned Ok")
+        emp = events(p, "Vec::is_empty")
+        ob.must_hold(bool(emp), "Ok only after checking that no worker has leftover work")
+        if emp:
+            ob.need(it, p.pc, emp[-1].ret, "Ok only when pending_workers is empty")
+    ob.must_hold(oks >= 1, "an Ok return was reached")
+    return ob.result(it)
+
+
+# ============================================================================ recovery: expired winners
+def site_recovery_expired_winners(fns):
+    f = mir.find(fns, "::remove_expired_recovery_winners", "src/core/store/recovery.rs")
+    ob = Ob("site_remove_expired_recovery_winners", "recovery's expired-winner pass, one arbitrary candidate: an entry is removed from the index only under its guard and "
+            "only when it still IS the collected generation; it is collected only with 0 < expiry < now; exactly that generation's extent is released and un-counted",
+            "one arbitrary iteration of the removal loop and of the collection loop", f)
+    hdr = None
+    for bb, st in f.blocks.items():
+        if "as Iterator>::next" in st[-1] and "IntoIter<(Vec<u8>, Arc<" in st[-1]:
+            hdr = bb
+    if hdr is None:
+        raise mir.MirError("removal loop not found")
+    it = Interp(f, loop_bound=1, pure=PURE, max_paths=6000)
+    reached = 0
+    for p in it.run(start=hdr, stop=(hdr,)):
+        ob.paths += 1
+        if p.status not in ("backedge", "return"):
+            continue
+        rem = events(p, "OccupiedEntry::remove")
+        rel = events(p, "FreeSpaceManager::release_sectors")
+        subs = events(p, "Atomic::fetch_sub")
+        if not rem:
+            ob.must_hold(not rel and not subs, "nothing is released or un-counted when no entry is removed")
+            continue
+        reached += 1
+        cur = guarded_entry_value(it, p)
+        ob.must_hold(cur is not None, "removal under the entry guard")
+        nx = [e for e in p.events if e.kind == "call" and e.callee.endswith("Iterator>::next")]
+        if cur is not None and nx:
+            cand = it.ctx.uf("proj_Some_0", [U], U)(it.as_u(nx[0].ret))
+            rec = it.ctx.uf("proj__1", [U], U)(cand)
+            ob.need(it, rem[0].pc, it.as_u(cur) == rec, "the removed entry is the collected (expired) generation")
+            ob.must_hold(len(rel) == 1, "its extent is released exactly once")
+            if rel:
+                ob.must_hold(contains(rel[0].args[2], rec), "the released length is computed from the removed generation")
+            cnt = [e for e in p.events if e.kind == "call" and "Atomic::<u32>::fetch_sub" in getattr(e, "raw", "")]
+            rel_ok = bool(rel) and it.entails(p.pc, it.ctx.disc(it.as_u(rel[0].ret)) == 0)[0]
+            if rel_ok:   # a failing release aborts the whole open: counters are irrelevant then
+                ob.must_hold(len(cnt) == 1, "record_count decremented once")
+    ob.must_hold(reached >= 1, "the removal site was reached")
+    # collection predicate: `expiry > 0 && now > expiry` guards the push into `expired`
+    now = z3.BitVec("now", 64)
+
+    def init(it_, st):
+        st["env"]["_2"] = now
+    it2 = Interp(f, loop_bound=1, pure=PURE, max_paths=6000)
+    collected = 0
+    for p in it2.run(init):
+        if p.status not in ("return", "truncated"):
+            continue
+        pushes = [e for e in events(p, "Vec::push") if isinstance(e.args[1], mir.Tup) and len(e.args[1].fields) == 2
+                  and all(z3.is_expr(x) and x.sort() == U for x in e.args[1].fields)]   # expired.push((key, record))
+        loads = [e for e in events(p, "Atomic::load") if z3.is_bv(e.ret) and e.ret.size() == 64]
+        rems = events(p, "OccupiedEntry::remove")
+        for e in pushes:
+            if rems and idx_of(p, e) > idx_of(p, rems[0]):
+                continue
+            prior = [l for l in loads if idx_of(p, l) < idx_of(p, e)]
+            if prior:
+                collected += 1
+                ob.need(it2, e.pc, z3.And(prior[-1].ret != 0, z3.UGT(now, prior[-1].ret)), "a generation is collected as expired only with 0 < expiry < now")
+    ob.must_hold(collected >= 1, "the collection site was reached")
+    ob.queries += it2.queries
+    return ob.result(it)
 
 
 # ============================================================================ TTL sweeper
